@@ -307,7 +307,12 @@ Print Assumptions C07_first_timed.
    equal ids exactly to equal contents: the value used was given, acceptable, by a node no later
    than the return; counting the nodes that gave an acceptable answer with a given id, it has at
    least one and at least the threshold of votes by the return, no value had more votes before the
-   return, and a value with as many has no higher head slot.  Nothing is used only if no value
+   return, and a value with as many has no higher head slot.  Moreover the choice is FINAL when it
+   is made before the strategy's decision point ([maj_final]: attestation data always -- its soft
+   timeout decides nothing; block root when it returns before the soft timeout): no OTHER value is
+   given by more nodes before the hard timeout than the value used had by the return -- "the most
+   frequently reported value", not the most frequent so far; the loops stop early only on a strict
+   majority of all the nodes (and never below the threshold).  Nothing is used only if no value
    reached max(1, threshold) votes before the hard timeout: "used whenever at least the threshold of
    nodes reported it within the timeout and never otherwise". *)
 Theorem C07_majority_timed :
@@ -318,10 +323,15 @@ Theorem C07_majority_timed :
     ((exists p0 v, r = result_of (Some v) /\ In p0 ps /\ gives_ok st pr p0 v /\ pv_time p0 <= t
         /\ (1 <= cnt st pr ps (fun x => (x <=? t)%N) (v_id v))%Z
         /\ (maj_thr st pr <= cnt st pr ps (fun x => (x <=? t)%N) (v_id v))%Z
-        /\ forall p1 v1, In p1 ps -> gives_ok st pr p1 v1 ->
+        /\ (forall p1 v1, In p1 ps -> gives_ok st pr p1 v1 ->
              (cnt st pr ps (fun x => (x <? t)%N) (v_id v1) <= cnt st pr ps (fun x => (x <=? t)%N) (v_id v))%Z
              /\ (cnt st pr ps (fun x => (x <? t)%N) (v_id v1) = cnt st pr ps (fun x => (x <=? t)%N) (v_id v)
                  -> vslot pr v1 <= vslot pr v))
+        /\ (maj_final (template_of st) (p_timeout pr) t = true ->
+            forall p1 v1, In p1 ps -> gives_ok st pr p1 v1 -> v_id v1 <> v_id v ->
+             (cnt st pr ps (fun x => (x <? p_timeout pr)%N) (v_id v1) <= cnt st pr ps (fun x => (x <=? t)%N) (v_id v))%Z
+             /\ (cnt st pr ps (fun x => (x <? p_timeout pr)%N) (v_id v1) = cnt st pr ps (fun x => (x <=? t)%N) (v_id v)
+                 -> vslot pr v1 <= vslot pr v)))
      \/ (r = RErr /\ forall p1 v1, In p1 ps -> gives_ok st pr p1 v1 ->
            (cnt st pr ps (fun x => (x <? p_timeout pr)%N) (v_id v1) < Z.max 1 (maj_thr st pr))%Z)).
 Proof. exact maj_outcome_spec. Qed.
